@@ -386,7 +386,7 @@ func init() {
 		// encoding/binary.Read/Write fall back to package reflect: redirected
 		// to reflection-free interpreted equivalents in verifrt
 		"encoding/binary.Read": func(fr *frame, a []value) value {
-			return call(fr.i, fr, token.NoPos, fr.i.P.pkgByPath["verif/verifrt"].Func("BinRead"), a)
+			return binReadInto(fr, a[0], a[1], a[2])
 		},
 		"encoding/binary.Write": func(fr *frame, a []value) value {
 			return call(fr.i, fr, token.NoPos, fr.i.P.pkgByPath["verif/verifrt"].Func("BinWrite"), a)
@@ -1271,4 +1271,50 @@ func init() {
 	} {
 		externals[k] = v
 	}
+}
+
+// binReadInto: encoding/binary.Read. Scalars, byte slices and byte arrays go
+// to the interpreted verifrt.BinRead; a pointer to a struct (or to an array of
+// non-byte elements) is read field by field in declaration order, as the
+// reflection-based original does (fields named _ are skipped over).
+func binReadInto(fr *frame, r, order, data value) value {
+	binRead := fr.i.P.pkgByPath["verif/verifrt"].Func("BinRead")
+	if d, ok := data.(iface); ok {
+		if pt, ok := d.t.Underlying().(*types.Pointer); ok {
+			if cell, ok := d.v.(*value); ok && cell != nil {
+				switch et := pt.Elem().Underlying().(type) {
+				case *types.Struct:
+					if st, ok := (*cell).(structure); ok {
+						for k := 0; k < et.NumFields(); k++ {
+							f := et.Field(k)
+							res := binReadInto(fr, r, order, iface{t: types.NewPointer(f.Type()), v: &st[k]})
+							if e, isIface := res.(iface); isIface && e.t != nil {
+								return res
+							}
+						}
+						return iface{}
+					}
+				case *types.Array:
+					if b, isBasic := et.Elem().Underlying().(*types.Basic); !isBasic || (b.Kind() != types.Uint8 && b.Kind() != types.Byte) {
+						if arr, ok := (*cell).(array); ok {
+							for k := range arr {
+								res := binReadInto(fr, r, order, iface{t: types.NewPointer(et.Elem()), v: &arr[k]})
+								if e, isIface := res.(iface); isIface && e.t != nil {
+									return res
+								}
+							}
+							return iface{}
+						}
+					}
+				case *types.Basic:
+					// a named scalar type (type AddressType uint8): hand the
+					// interpreted reader a pointer to the underlying type
+					if _, named := pt.Elem().(*types.Named); named {
+						data = iface{t: types.NewPointer(et), v: d.v}
+					}
+				}
+			}
+		}
+	}
+	return call(fr.i, fr, token.NoPos, binRead, []value{r, order, data})
 }
